@@ -407,3 +407,62 @@ def suite_under_monitors(job):
             R.violation("value-wire-mismatch", "while running the repository's own tests: reported value %s but wire expression evaluates to %s" % (val, wire),
                         workload="repository test-suite", n_mismatches=len(contracts.State.mismatches))
     return {p: runs[p].export() for p in props}
+
+
+def examples_under_monitors(job):
+    """The repository's runnable example scripts as workloads (recording backend, constructor contract, evaluators).
+    Examples written against older APIs or absent packages fail to start and are only counted."""
+    import contextlib
+    import glob
+    import io
+    import os
+    import runpy
+    import sys
+    from vf import contracts, recorder
+    props = set(job["props"])
+    rt = boot.attach()
+    contracts.install_lincomb_contract()
+    contracts.State.track = True
+    neutral = boot.Neutral()
+    runs = {p: common.Run(p, LEVEL[p], RULES[p]) for p in props}
+    for ex in sorted(glob.glob(os.path.join(boot.REPO, "examples", "*.py"))):
+        neutral()
+        contracts.clear()
+        argv = sys.argv
+        sys.argv = [ex, "3"]
+        err = None
+        try:
+            with contextlib.redirect_stdout(io.StringIO()), contextlib.redirect_stderr(io.StringIO()):
+                runpy.run_path(ex, run_name="__main__")
+        except BaseException as e:  # noqa
+            err = e
+        finally:
+            sys.argv = argv
+        name = os.path.basename(ex)
+        for p in props:
+            runs[p].count("examples_started")
+        if err is not None:
+            for p in props:
+                runs[p].count("examples_not_runnable_here")
+            rt.guard = None
+            rt._ignore_errors = False
+            rt.LinComb.ONE = rt.LinComb.ONE_SAFE
+            continue
+        ncon = len(recorder.constraints)
+        if "C01" in props:
+            R = runs["C01"]
+            R.count("constraints_evaluated", ncon)
+            R.case(cell="example:" + name, key=("example", name), nontrivial=ncon > 0)
+            bad = r1cs.unsatisfied(recorder.constraints, recorder.values, recorder.modulus)
+            if bad or recorder.online_bad:
+                R.violation("unsatisfied-constraint", "examples/%s completes but constraint %s is not satisfied by the recorded witness" % (name, (bad or recorder.online_bad)[:3]),
+                            workload="examples/" + name)
+        if "C04" in props:
+            R = runs["C04"]
+            contracts.sweep("end of example")
+            R.count("objects_judged", len(contracts.State.created))
+            R.case(cell="example:" + name, key=("example", name), nontrivial=len(contracts.State.created) > 0)
+            if contracts.State.mismatches:
+                o, val, wire, where = contracts.State.mismatches[0]
+                R.violation("value-wire-mismatch", "examples/%s: reported value %s but wire expression evaluates to %s" % (name, val, wire), workload="examples/" + name)
+    return {p: runs[p].export() for p in props}
